@@ -378,7 +378,9 @@ func (e *mbEngine) Exec(line string) (obs string, viol string) {
 				e.pausedSince = e.stepNo
 			}
 		}
-		if wasSite == "h.end" || (td.role == "consumer" && wasSite == "mb.proc.recas") {
+		if wasSite == "h.end" || (td.role == "consumer" && wasSite == "mb.proc.recas" && t.Site == "mb.ph.pops") {
+			// a handler invocation ended, or this goroutine re-armed and starts a new pass (a re-arm that lost
+			// its CAS belongs to a goroutine on its way out: it says nothing about the active consumer)
 			e.lastHandlerEnd = e.stepNo
 		}
 		if len(e.s.Threads) > before {
